@@ -20,7 +20,7 @@ PREGEN_NOTES = pregen()   # at import: before the framework builds the Coq files
 THEOREMS = ['C01_run_invariant', 'C01_run_caller', 'C01_rgpu_run', 'C01_rgpu_caller', 'C01_attempt', 'C01_rbu_step',
             'C01_nothing_to_do', 'C01_nothing_to_do_latt', 'C01_rgpu_nothing_to_do',
             'C01_source_table', 'C01_engine_is_table', 'C01_rgpu_is_table', 'C01_rbu_source_table', 'C01_rbu_is_table', 'C01_rbu_full', 'C01_rbu_start_degrees', 'C01_rbu_zero_identity',
-            'C01_und_selfloop_refuted']
+            'C01_und_diagonal', 'C01_und_diagonal_states', 'C01_rgpu_diagonal']
 RULE = ('8 engine routines + randomize_graph_partial_und + randomizer_bin_und on generated graphs n=4..9 and (one in eight) '
         'n=10..20 (ER at several densities, ring+chords, tree+chords, bridges, isolated nodes, exactly two disjoint edges, long ring, '
         'path+chords, two cliques+bridge; binary, integer, signed and dyadic (k/8) weights in float64/float32/int64/bool arrays; '
@@ -28,7 +28,7 @@ RULE = ('8 engine routines + randomize_graph_partial_und + randomizer_bin_und on
         '_connected routines); itr in {0,1,2,5}; caller-supplied D integer or dyadic (k/4, also negative); fractional / signed masks; '
         'randomizer_bin_und on 0/1, weighted, int/bool and diagonal-bearing input with alpha in {0,0.05,0.3,1}; separate streams: '
         'asymmetric input to randmio_und (BCTParamError <-> model precheck), degenerate inputs (n<2, no edge, one edge with itr=0), '
-        'undirected routines on input with self-connections (known finding), exhaustive slice (all graphs n=5 und / n=4 dir). '
+        'undirected routines on input with self-connections (repaired defect: regression stream + pinned corpus case), exhaustive slice (all graphs n=5 und / n=4 dir). '
         'Every run is recorded (all RandomState draws + the state after every accepted swap through the BCTPY_VERIF hook) and '
         'replayed by the extracted Coq model, which must end in the same outcome (Done/Rejected/Raises) and reproduce every state; '
         'the implementation always gets a copy and the caller\'s array is compared afterwards; '
@@ -59,6 +59,8 @@ def oracle(ctx, fn, A, res, case):
     ctx.check(not np.any((np.diag(X) != 0) & (np.diag(A) == 0)), fn + ':diag', 'new self-connection', case)
     if und:
         ctx.check(np.array_equal(X, X.T), fn + ':sym', 'undirected routine returned an asymmetric matrix', case)
+        if fn != 'randomizer_bin_und':
+            ctx.check(np.array_equal(np.diag(X), np.diag(A)), fn + ':diag', 'a self-connection was moved, changed or created', case)
     else:
         ctx.check(np.array_equal(A.sum(axis=1), X.sum(axis=1)), fn + ':outstrength', 'out-strength of some node changed', case)
     if case['itr'] == 0 or res['eff'] == 0:
@@ -76,7 +78,7 @@ def oracle(ctx, fn, A, res, case):
             cells = set(zip(ii.tolist(), jj.tolist()))
             ok = all(R[x, y] != 0 for x, y in cells) and len(cells) == len(ii)
             if und:
-                sup = {(max(x, y), min(x, y)) for x, y in zip(*np.where(R != 0))}
+                sup = {(max(x, y), min(x, y)) for x, y in zip(*np.where(R != 0)) if x != y}   # a self-connection is not an edge of the list
                 ok = ok and {(max(x, y), min(x, y)) for x, y in cells} == sup
             else:
                 ok = ok and cells == set(zip(*[z.tolist() for z in np.where(R != 0)]))
@@ -115,9 +117,10 @@ def one_case(ctx, fn, lines, pend):
 
 
 def selfloop_case(ctx, fn, lines, pend, pinned=None):
-    """undirected engine routines on a symmetric input with a NON-EMPTY diagonal (outside the documented domain; the
-    property is false there: Properties/C01.v C01_und_selfloop_refuted, known_findings.d/C01.json).  One narrow key per
-    routine, so any other violation is still reported; the model must follow the implementation here too."""
+    """undirected engine routines on a symmetric input with a NON-EMPTY diagonal.  Until /repo fabf520 the self-connection
+    (a,a) was listed as an edge and the output could be asymmetric with a changed degree (then a known finding); now the edge
+    list is the strict lower triangle and the ordinary oracle applies (C01_run_caller has no empty-diagonal hypothesis any
+    more, C01_und_diagonal: the diagonal is carried over).  corpus/C01.json pins the old witness as a regression case."""
     r = ctx.nprng
     if pinned:
         A, _, _ = case_arrays(pinned); itr = pinned['itr']; seed = pinned['seed']; fam = 'pinned'
@@ -125,21 +128,16 @@ def selfloop_case(ctx, fn, lines, pend, pinned=None):
         A, fam = gen_graph(r, True, connected=fn in CONN, big=False)
         A = A.astype(float) if A.dtype == bool else A.copy()
         for z in r.choice(len(A), int(r.randint(1, 3)), replace=False):
-            A[z, z] = 1
+            A[z, z] = 1 if A.dtype.kind == 'i' else float(r.choice([1, 1, 5, -2, 0.5]))
         itr = int(r.choice([1, 2])); seed = int(r.randint(1, 2 ** 31 - 1))
     res = run_impl(fn, A, itr, seed)
     case = {'fn': fn, 'A': jmat(A), 'dtype': str(A.dtype), 'itr': itr, 'seed': seed, 'D': None, 'kind': 'nonempty-diagonal'}
     ctx.case(case, nontrivial=len(res['events']) > 0); ctx.count(fn + ':nonempty-diagonal(' + fam.split('+')[0] + ')')
     if res.get('error') == 'timeout':
         ctx.count('timeout'); return
-    if res['error']:
-        ctx.fail(fn + ':nonempty-diagonal', 'raised: ' + res['error'], case)
-    else:
-        X = np.asarray(res['out'])
-        ok = np.array_equal(X, X.T) and np.array_equal(degs(A)[0], degs(X)[0]) and np.array_equal(degs(A)[1], degs(X)[1]) \
-            and np.array_equal(np.sort(A[A != 0]), np.sort(X[X != 0]))
-        ctx.check(ok, fn + ':nonempty-diagonal', 'input with self-connections: asymmetric output / degree or weight multiset changed', case)
-    lines.append(model_line(fn, A, itr, res['draws'])); pend.append((fn, case, res))
+    oracle(ctx, fn, A, res, case)
+    if not res['error']:
+        lines.append(model_line(fn, A, itr, res['draws'])); pend.append((fn, case, res))
 
 
 def degenerate_case(ctx, lines, pend):
